@@ -1346,3 +1346,44 @@ def export_extent(R, ctx, rid):
         R.ob(rid, fn, site + ":local-bound", extent and not gap_aware,
              "local bound = extent of the block lists (%s)" % sshow(a, 5) if extent and not gap_aware else
              "local bound = %s — the gap-aware state vector: blocks behind a Skip are never exported" % sshow(a, 5), cs.loc())
+
+
+DELTA_DISPATCH = {
+    # worker -> (Delta variant, {argument index: source inside that variant})
+    "yrs::types::text::insert": ("Inserted", {3: "Inserted.0", 4: "Inserted.1"}),
+    "yrs::types::text::remove": ("Deleted", {2: "Deleted.0"}),
+    "yrs::types::text::insert_format": ("Retain", {3: "Retain.0", 4: "Retain.1"}),
+}
+
+
+def apply_delta_dispatch(R, ctx, rid):
+    """Text::apply_delta: each kind of delta op reaches its own worker with its own payload."""
+    Y = ctx.yrs
+    R.rule(rid, "R-TABLE dispatch of Text::apply_delta: an Inserted(value, attrs) op reaches text::insert with that value and those "
+                "attributes, Deleted(len) reaches text::remove with that length, Retain(len, attrs) reaches text::insert_format with "
+                "that length and those attributes — each worker is reachable for its own variant only (kinds_reaching over the Delta "
+                "discriminant), exactly once, all three share the one running position, and a missing attribute set means the empty set")
+    fn = Y.fn("yrs::types::text::Text::apply_delta")
+    v = FnView(fn)
+    pos = set()
+    for worker, (variant, args) in sorted(DELTA_DISPATCH.items()):
+        css = fn.calls_to(worker)
+        site = worker.rsplit("::", 1)[-1]
+        if len(css) != 1:
+            R.ob(rid, fn, site, False, "%d calls of %s (expected one)" % (len(css), worker))
+            continue
+        cs = css[0]
+        kinds, used = kinds_reaching(Y, fn, cs.bb, enum="yrs::types::Delta", place_hint=None, names=["Inserted", "Deleted", "Retain"])
+        bad = []
+        if kinds != {variant} or not used:
+            bad.append("reachable for %s" % sorted(kinds))
+        for idx, want in sorted(args.items()):
+            t = simp_deep(v.arg(cs, idx, 12))
+            srcs = sorted({x[1].rsplit("::", 1)[-1] for x in walk(t) if isinstance(x, tuple) and x and x[0] == "field"
+                           and re.search(r"::Delta::(Inserted|Deleted|Retain)\.\d+$", x[1])})
+            if srcs != [want]:
+                bad.append("argument %d comes from %s — expected %s" % (idx, srcs or sshow(t, 4), want))
+        pi = 2 if site != "remove" else 1
+        pos.add(mir_root(fn, cs.args[pi]))
+        R.ob(rid, fn, site, not bad, "%s -> %s with its own payload" % (variant, site) if not bad else "; ".join(bad), cs.loc())
+    R.ob(rid, fn, "one-position", len(pos) == 1, "all three workers advance the same running position: %s" % (len(pos) == 1))
